@@ -32,18 +32,23 @@ SELFTEST = os.environ.get("VERIF_SELFTEST") == "1"
 
 
 # ----------------------------------------------------------------------------- generation
-def cfg(mode, depth, modes):
-    return F.write_cfg("jg_%s_%d.cfg" % (mode, depth),
-                       'CONSTANTS Mode = "%s"  MaxDepth = %d  GrowModes = {%s}\nSPECIFICATION Spec\nINVARIANT DepthOK\nINVARIANT LawsThenEmit\nCHECK_DEADLOCK FALSE\n'
-                       % (mode, depth, ", ".join('"%s"' % m for m in modes)))
+def cfg(mode, depth, modes, flat_width=3, leaves="full"):
+    return F.write_cfg("jg_%s_%d_%s.cfg" % (mode, depth, leaves),
+                       'CONSTANTS Mode = "%s"  MaxDepth = %d  FlatWidth = %d  LeafMode = "%s"  GrowModes = {%s}\nSPECIFICATION Spec\nINVARIANT DepthOK\nINVARIANT LawsThenEmit\nCHECK_DEADLOCK FALSE\n'
+                       % (mode, depth, flat_width, leaves, ", ".join('"%s"' % m for m in modes)))
 
 
 def generate(chk):
     thorough = chk.tier == "thorough"
     nsim = 6 if thorough else 2
     walks = 40 if thorough else 10
-    jobs = [dict(name="static", module="MC_JsonGen.tla", cfg=cfg("static", 0, []), timeout=1500),
-            dict(name="grow", module="MC_JsonGen.tla", cfg=cfg("grow", 3 if thorough else 2, ["bare", "sib", "dupl", "dupf"]), timeout=2400)]
+    bfs = ["bare", "sib", "dupl", "dupf"]
+    # quick: objects of the flat block up to 2 pairs, spines to depth 2 over a small leaf alphabet;
+    # thorough: 3 pairs, spines to depth 2 over every scalar class and to depth 3 over the small alphabet
+    jobs = [dict(name="static", module="MC_JsonGen.tla", cfg=cfg("static", 0, [], flat_width=3 if thorough else 2), timeout=1500),
+            dict(name="grow", module="MC_JsonGen.tla", cfg=cfg("grow", 2, bfs, leaves="full" if thorough else "lite"), timeout=2400)]
+    if thorough:
+        jobs.append(dict(name="grow3", module="MC_JsonGen.tla", cfg=cfg("grow", 3, bfs, leaves="lite"), timeout=2400))
     deep = cfg("grow", 8, ["bare", "sib", "dupl", "dupf", "twin"])
     for k in range(nsim):
         jobs.append(dict(name="deep%d" % k, module="MC_JsonGen.tla", cfg=deep, simulate="num=%d" % walks, seed=chk.seed * 100 + k,
@@ -60,7 +65,7 @@ def generate(chk):
             if key in seen:
                 continue
             seen.add(key)
-            v["src"] = "deep" if name.startswith("deep") else name
+            v["src"] = "deep" if name.startswith("deep") else ("grow" if name.startswith("grow") else name)
             v["probes"] = sorted(v["probes"], key=lambda p: json.dumps(p["steps"]))
             docs.append(v)
     if tb is None:
